@@ -117,4 +117,22 @@ def scriptProp (trace : List (Rec × List Rec)) : Option String :=
       | some (x, y) => some s!"the script's decisions lead to [{x}], the engine performed [{y}]"
       | none => if a.length != b.length then some s!"the script's decisions lead to {a.length} actions/SP/energy steps, the engine performed {b.length}" else none
 
+def isTaskRec (r : Rec) : Bool :=
+  r.name == "InsertStart" || (r.name == "ActionStart" && r.bool "insert") || r.name == "runerr" || r.name == "result"
+
+/-- C10 at the driver: the queued tasks that are executed, in order, are the ones the queue rules
+determine (least priority first, first-in first-out among equals, dropped exactly when the source
+is dead or off the field or carries an abort flag), computed by the model from the same inputs. -/
+def queueProp (trace : List (Rec × List Rec)) : Option String :=
+  forRuns trace fun op obs =>
+    if outcome obs == "capped" then none
+    else
+      let (m, _) := SimAdapter.runModel op obs
+      let key (r : Rec) := if r.name == "result" || r.name == "runerr" then r.name else Wire.Rec.render r
+      let a := (m.filter isTaskRec).map key
+      let b := (obs.filter isTaskRec).map key
+      match (a.zip b).find? (fun p => p.1 != p.2) with
+      | some (x, y) => some s!"the queue rules execute [{x}] next, the engine executed [{y}]"
+      | none => if a.length != b.length then some s!"the queue rules execute {a.length} tasks, the engine executed {b.length}" else none
+
 end SimProp
